@@ -55,3 +55,16 @@ func init() {
 		}
 	})
 }
+
+// C19.total-index (added after seed C19-8): inside the decoders no index or
+// slice expression may go out of range for any input — a record whose
+// repeated fields have different lengths must give an error, not a panic.
+func init() {
+	extend("C19", func(r *Run) {
+		r.Rule("C19.total-index", "index and slice expressions in the decoders are in range for every record", 20)
+		_, scope := DecoderScope(r.W)
+		for _, fn := range scope {
+			r.indexTotality("C19.total-index", fn, false)
+		}
+	})
+}
